@@ -46,7 +46,7 @@ use serde::{Deserialize, Serialize};
 
 use crate::{
     error::{EpbdError, Result},
-    types::{BuildingNeeds, Carrier, CType, EProd, Energy, HasValues, Meta, MetaVec, ProdSource, Service},
+    types::{BuildingNeeds, Carrier, CType, EProd, Energy, HasValues, Meta, MetaVec, Needs, ProdSource, Service},
     vecops::{veclistsum, vecvecdif, vecvecsum},
 };
 
@@ -90,7 +90,25 @@ impl fmt::Display for Components {
             .map(|v| format!("{}", v))
             .collect::<Vec<_>>()
             .join("\n");
-        write!(f, "{}\n{}", meta_lines, data_lines)
+        let needs_lines = [
+            (Service::ACS, &self.needs.ACS),
+            (Service::CAL, &self.needs.CAL),
+            (Service::REF, &self.needs.REF),
+        ]
+        .iter()
+        .filter_map(|(service, values)| {
+            values.as_ref().map(|values| {
+                format!(
+                    "\n{}",
+                    Needs {
+                        service: *service,
+                        values: values.clone()
+                    }
+                )
+            })
+        })
+        .collect::<String>();
+        write!(f, "{}\n{}{}", meta_lines, data_lines, needs_lines)
     }
 }
 
